@@ -383,7 +383,9 @@ def conclude(module, ctx, P, inconclusive, t0):
         "monitor_evaluations": dict(P.monitors),
         "input_classes": dict(P.classes),
         "counters": dict(P.counters),
-        "known_findings_observed": {k: {"count": v["count"], "what": v["what"]} for k, v in known_seen.items()},
+        "known_findings_observed": {k: {"count": v["count"], "what": v["what"], "deviation_keys": len(v["keys"]),
+                                        "deviation_keys_sample": sorted(v["keys"])[:40]}
+                                    for k, v in known_seen.items()},
         "violating_keys": {k: {"count": v["count"], "what": v["what"]} for k, v in violations.items()},
         "truncated_cases": P.truncated,
         "inconclusive": inconclusive,
